@@ -508,102 +508,146 @@ def negate(e):
     return ast.copy_location(ast.UnaryOp(op=ast.Not(), operand=e), e)
 
 
-def canon_flow(tree):
-    """one shape for guard clauses:
-    * `if c: A(leaves) else: B`            ->  `if c: A` ; B
-    * `if c: continue` ; REST  (in a loop)  ->  `if not c: REST`
-    * `if c: return` ; REST  (function end) ->  `if not c: REST`
-    applied bottom-up until nothing changes"""
-    n = 0
+def _raises_only(stmts):
+    """does the block leave by raising (an error exit: those guards stay
+    guards, the code after them is not nested under an else)"""
+    last = stmts[-1]
+    if isinstance(last, ast.Raise):
+        return True
+    if isinstance(last, ast.If) and last.orelse:
+        return _raises_only(last.body) or _raises_only(last.orelse)
+    return False
 
-    def neg(e):
-        return negate(e)
+
+def _same_stmt(a, b):
+    return type(a) is type(b) and ast.unparse(a) == ast.unparse(b)
+
+
+def _is_bare_leave(st, ctx):
+    if isinstance(st, ast.Continue):
+        return ctx == "loop"
+    if isinstance(st, ast.Return):
+        return ctx == "func" and (st.value is None or (isinstance(
+            st.value, ast.Constant) and st.value.value is None))
+    return False
+
+
+def canon_flow(tree):
+    """one shape for early exits - the structured one:
+    * `if c: A(leaves)` ; REST            ->  `if c: A else: REST`
+    * both branches end in the same `return x` / `continue` / `raise`
+                                          ->  that statement follows the if
+    * a trailing bare `continue` at the end of a loop body, a bare `return`
+      at the end of a function            ->  dropped
+    * `if c: pass else: B`                ->  `if not c: B`
+    * `while True: if c: break; BODY`     ->  `while not c: BODY`
+    applied until nothing changes"""
+    n = 0
 
     def do(lst, ctx):
         """ctx: 'loop' if falling off the end of lst continues a loop,
         'func' if it ends the function, None otherwise"""
         nonlocal n
-        i = 0
-        while i < len(lst):
-            st = lst[i]
-            if isinstance(st, FUNC):
-                do(st.body, "func")
-            elif isinstance(st, (ast.For, ast.AsyncFor, ast.While)):
-                do(st.body, "loop")
-                do(st.orelse, None)
-            elif isinstance(st, ast.If):
+        changed = True
+        while changed:
+            changed = False
+            i = 0
+            while i < len(lst):
+                st = lst[i]
                 last = i == len(lst) - 1
-                do(st.body, ctx if last else None)
-                do(st.orelse, ctx if last else None)
-            elif isinstance(st, (ast.With, ast.AsyncWith)):
-                do(st.body, ctx if i == len(lst) - 1 else None)
-            elif isinstance(st, ast.Try):
-                do(st.body, None)
-                for h in st.handlers:
-                    do(h.body, None)
-                do(st.orelse, None)
-                do(st.finalbody, None)
-            elif isinstance(st, ast.ClassDef):
-                do(st.body, None)
-            if isinstance(st, ast.While) and isinstance(
-                    st.test, ast.Constant) and st.test.value is True \
-                    and not st.orelse and st.body and isinstance(
-                        st.body[0], ast.If) and not st.body[0].orelse \
-                    and len(st.body[0].body) == 1 and isinstance(
-                        st.body[0].body[0], ast.Break) and len(st.body) > 1:
-                # while True: if c: break; BODY  ->  while not c: BODY
-                st.test = negate(st.body[0].test)
-                del st.body[0]
-                n += 1
-                continue
-            if isinstance(st, FUNC) and len(st.body) > 1 and isinstance(
-                    st.body[-1], ast.Return) and (
-                        st.body[-1].value is None or (isinstance(
-                            st.body[-1].value, ast.Constant)
-                            and st.body[-1].value.value is None)):
-                del st.body[-1]
-                n += 1
-                continue
-            if isinstance(st, ast.If) and st.orelse and _leaves(
-                    st.orelse) and not _leaves(st.body) and not (
-                        len(st.orelse) == 1
-                        and isinstance(st.orelse[0], ast.If)):
-                # `if c: A else: B(leaves)` -> `if not c: B` ; A
-                a = st.body
-                st.test = negate(st.test)
-                st.body = st.orelse
-                st.orelse = []
-                lst[i + 1:i + 1] = a
-                n += 1
-                continue
-            if isinstance(st, ast.If):
-                # else after a leaving body
-                if st.orelse and _leaves(st.body) and not (
-                        len(st.orelse) == 1 and isinstance(
-                            st.orelse[0], ast.If) and False):
-                    rest = st.orelse
-                    st.orelse = []
-                    lst[i + 1:i + 1] = rest
+                if isinstance(st, FUNC):
+                    do(st.body, "func")
+                elif isinstance(st, (ast.For, ast.AsyncFor, ast.While)):
+                    do(st.body, "loop")
+                    do(st.orelse, None)
+                elif isinstance(st, ast.If):
+                    do(st.body, ctx if last else None)
+                    do(st.orelse, ctx if last else None)
+                elif isinstance(st, (ast.With, ast.AsyncWith)):
+                    do(st.body, ctx if last else None)
+                elif isinstance(st, ast.Try):
+                    do(st.body, None)
+                    for h in st.handlers:
+                        do(h.body, None)
+                    do(st.orelse, None)
+                    do(st.finalbody, None)
+                elif isinstance(st, ast.ClassDef):
+                    do(st.body, None)
+                if isinstance(st, ast.While) and isinstance(
+                        st.test, ast.Constant) and st.test.value is True \
+                        and not st.orelse and st.body and isinstance(
+                            st.body[0], ast.If) and not st.body[0].orelse \
+                        and len(st.body[0].body) == 1 and isinstance(
+                            st.body[0].body[0], ast.Break) and len(
+                                st.body) > 1:
+                    st.test = negate(st.body[0].test)
+                    del st.body[0]
                     n += 1
+                    changed = True
                     continue
-                # guard clause that only leaves
-                if not st.orelse and len(st.body) == 1 and i + 1 < len(lst):
-                    b = st.body[0]
-                    bare = (isinstance(b, ast.Continue) and ctx == "loop") \
-                        or (isinstance(b, ast.Return) and (
-                            b.value is None or (isinstance(
-                                b.value, ast.Constant)
-                                and b.value.value is None))
-                            and ctx == "func")
-                    if bare:
-                        rest = lst[i + 1:]
+                if last and len(lst) > 1 and _is_bare_leave(st, ctx):
+                    del lst[i]
+                    n += 1
+                    changed = True
+                    continue
+                if isinstance(st, ast.If):
+                    # the rest of the block is the else of a leaving body
+                    if not st.orelse and _leaves(st.body) and not last \
+                            and not _raises_only(st.body):
+                        st.orelse = lst[i + 1:]
                         del lst[i + 1:]
-                        st.test = neg(st.test)
-                        st.body = rest
                         n += 1
-                        do(st.body, ctx)
+                        changed = True
                         continue
-            i += 1
+                    # the branch that leaves comes first
+                    if st.orelse and _leaves(st.orelse) and not _leaves(
+                            st.body) and not (len(st.orelse) == 1
+                                              and isinstance(st.orelse[0],
+                                                             ast.If)):
+                        st.test = negate(st.test)
+                        st.body, st.orelse = st.orelse, st.body
+                        n += 1
+                        changed = True
+                        continue
+                    # common tail of both branches
+                    if st.orelse and st.body and isinstance(
+                            st.body[-1], (ast.Return, ast.Continue,
+                                          ast.Raise, ast.Break)) and \
+                            _same_stmt(st.body[-1], st.orelse[-1]):
+                        tail = st.body[-1]
+                        del st.body[-1]
+                        del st.orelse[-1]
+                        if not st.body:
+                            st.body = [ast.copy_location(ast.Pass(), st)]
+                        lst.insert(i + 1, tail)
+                        n += 1
+                        changed = True
+                        continue
+                    # a branch that only leaves bare-ly at the block's end
+                    for br in ("body", "orelse"):
+                        blk = getattr(st, br)
+                        if last and blk and _is_bare_leave(blk[-1], ctx):
+                            del blk[-1]
+                            if not blk and br == "body":
+                                blk.append(ast.copy_location(ast.Pass(), st))
+                            n += 1
+                            changed = True
+                    # empty branches
+                    if st.orelse and len(st.body) == 1 and isinstance(
+                            st.body[0], ast.Pass):
+                        st.test = negate(st.test)
+                        st.body = st.orelse
+                        st.orelse = []
+                        n += 1
+                        changed = True
+                        continue
+                    if len(st.orelse) == 1 and isinstance(st.orelse[0],
+                                                          ast.Pass):
+                        st.orelse = []
+                        n += 1
+                        changed = True
+                        continue
+                i += 1
     do(tree.body, None)
     return n
 
